@@ -87,6 +87,15 @@ func (r *Run) invoke(st *State, fr *Frame, cc *ssa.CallCommon, fnv Val, args []V
 // function value is known (from the cell named by the pending-defer clause).
 func (r *Run) invokeInjected(st *State, fr *Frame, d Deferred) []*State {
 	e := r.e
+	if d.InjT != nil {
+		if ts := d.InjT.String(); ts == "*time.Ticker" || ts == "*time.Timer" {
+			// `defer t.Stop()` registered in an earlier iteration: the variable holds the timer, the pending call is its Stop
+			e.region(st, "timer.stopped", []Sort{SRef}, SBool)
+			e.regionWrite1(st, "timer.stopped", SBool, e.asTerm(d.Fn, SRef), True)
+			st.Counters["calls:(*time.Ticker).Stop"] = App(SInt, "+", r.counter(st, "calls:(*time.Ticker).Stop"), IntLit(1))
+			return nil
+		}
+	}
 	f := e.asTerm(d.Fn, SFn)
 	e.regionWrite1(st, "cnt.calls", SInt, f, App(SInt, "+", e.regionRead(st, "cnt.calls", []Sort{SFn}, SInt, f), IntLit(1)))
 	if m, ok := e.methods[f.S]; ok && m.Name == "context.CancelFunc" {
@@ -443,7 +452,7 @@ func (e *Engine) calleeName(cc *ssa.CallCommon) string {
 
 // usesPathGhosts: does a clause mention ghost state that is local to one execution of a function body.
 func usesPathGhosts(expr string) bool {
-	for _, g := range []string{"spawned(", "calls(", "lastres(", "lastarg(", "lastsent(", "lastrecv(", "receivedfrom(", "lasterr(", "lastrand(",
+	for _, g := range []string{"spawned(", "calls(", "lastres(", "lastarg(", "lastsent(", "lastrecv(", "receivedfrom(", "wgwaited(", "lasterr(", "lastrand(",
 		"icalls(", "ilast(", "calledsince(", "atomics(", "apre(", "apost(", "aop(", "panicking(", "nolocks(", "held(", "heldW(", "heldR(", "heldcond(", "mapkey(", "mapidx(", "now(", "atentry(", "nevercancelled(", "captured("} {
 		if strings.Contains(expr, g) {
 			return true
